@@ -75,6 +75,14 @@ def configs():
         ("hq_asym", base_cf(dwt_depth_ho=1, wavelet_index_ho=W.le_gall_5_3, picture_bytes=40)),
         ("hq_asym_index", base_cf(wavelet_index_ho=W.le_gall_5_3, picture_bytes=40,
                                   quantization_matrix={0: {"LL": 0}, 1: {"HL": 1, "LH": 1, "HH": 2}})),
+        # vertical wavelet explicit and not the default, horizontal wavelet equal to its documented default
+        # (haar_with_shift): the horizontal index may be omitted from a description
+        ("hq_asym_index_ho_default", base_cf(wavelet_index=W.le_gall_5_3, wavelet_index_ho=W.haar_with_shift, picture_bytes=40,
+                                             quantization_matrix={0: {"LL": 0}, 1: {"HL": 1, "LH": 1, "HH": 2}})),
+        # 64-bit samples (mid-grey is 2^63: beyond a signed 64-bit integer)
+        ("hq_lossless_64bit", base_cf(lossless=True, picture_bytes=None,
+                                      vp=dict(luma_excursion=(1 << 64) - 1, color_diff_excursion=(1 << 64) - 1,
+                                              luma_offset=0, color_diff_offset=1 << 63))),
         ("hq_ho_only", base_cf(dwt_depth=0, dwt_depth_ho=2, picture_bytes=40)),
         ("ld_asym", base_cf(profile=LD, dwt_depth_ho=1, picture_bytes=20)),
         ("hq_fields", base_cf(picture_coding_mode=FIELDS, vp=dict(frame_height=8), picture_bytes=30)),
